@@ -65,6 +65,12 @@ impl RunCtx {
         })
     }
 
+    /// Which of the equivalent spellings of an API call this step uses (singular / plural property
+    /// forms, deprecated Event::add_to_* forms): the abstract operation is the same.
+    pub fn variant(&self, key: i64, n: u64) -> u64 {
+        self.mix(5, key as u64) % n
+    }
+
     pub fn rpar(&self, h: i64) -> u64 {
         let v = self.mix(3, h as u64);
         match v % 7 {
@@ -455,22 +461,45 @@ fn do_op(
         "levent" => {
             if let Some((n, p)) = evt {
                 let p = own(p);
-                LocalSpan::add_event(Event::new(n.clone()).with_properties(move || p));
+                let key = step["evt"]["name"].as_i64().unwrap_or(0);
+                match rc.variant(key, 3) {
+                    0 if p.len() == 1 => {
+                        let kv = p[0].clone();
+                        LocalSpan::add_event(Event::new(n.clone()).with_property(move || kv));
+                    }
+                    1 => {
+                        #[allow(deprecated)]
+                        Event::add_to_local_parent(n.clone(), move || p.into_iter().map(|(k, v)| (k.into(), v.into())));
+                    }
+                    _ => LocalSpan::add_event(Event::new(n.clone()).with_properties(move || p)),
+                }
             }
         }
         "lprops" => {
             let cc = Cell::new(0u32);
             let k = own(kvs);
             let re = step["re"].as_bool().unwrap_or(false);
-            LocalSpan::add_properties(|| {
+            let single = k.len() == 1 && rc.variant(step["kvs"][0][0].as_i64().unwrap_or(0), 2) == 1;
+            let body = || {
                 cc.set(cc.get() + 1);
                 if re {
                     // what a closure that logs through a fastrace-aware logger, or calls a
                     // #[trace] function, does: it calls back into fastrace
                     let _ = SpanContext::current_local_parent();
                 }
-                k
-            });
+            };
+            if single {
+                let kv = k[0].clone();
+                LocalSpan::add_property(|| {
+                    body();
+                    kv
+                });
+            } else {
+                LocalSpan::add_properties(|| {
+                    body();
+                    k
+                });
+            }
             out.insert("cc".into(), json!(cc.get()));
         }
         "lwith" => match held_pop() {
@@ -478,13 +507,25 @@ fn do_op(
                 let cc = Cell::new(0u32);
                 let k = own(kvs);
                 let re = step["re"].as_bool().unwrap_or(false);
-                let span = span.with_properties(|| {
+                let single = k.len() == 1 && rc.variant(step["kvs"][0][0].as_i64().unwrap_or(0), 2) == 1;
+                let body = || {
                     cc.set(cc.get() + 1);
                     if re {
                         let _ = SpanContext::current_local_parent();
                     }
-                    k
-                });
+                };
+                let span = if single {
+                    let kv = k[0].clone();
+                    span.with_property(|| {
+                        body();
+                        kv
+                    })
+                } else {
+                    span.with_properties(|| {
+                        body();
+                        k
+                    })
+                };
                 out.insert("cc".into(), json!(cc.get()));
                 held_push(n, Held::Local(span));
             }
@@ -499,17 +540,36 @@ fn do_op(
         "sevent" => {
             if let (Some(s), Some((n, p))) = (get_span(rc, geti("h")), evt) {
                 let p = own(p);
-                s.add_event(Event::new(n.clone()).with_properties(move || p));
+                let key = step["evt"]["name"].as_i64().unwrap_or(0);
+                match rc.variant(key, 3) {
+                    0 if p.len() == 1 => {
+                        let kv = p[0].clone();
+                        s.add_event(Event::new(n.clone()).with_property(move || kv));
+                    }
+                    1 => {
+                        #[allow(deprecated)]
+                        Event::add_to_parent(n.clone(), &s, move || p.into_iter().map(|(k, v)| (k.into(), v.into())));
+                    }
+                    _ => s.add_event(Event::new(n.clone()).with_properties(move || p)),
+                }
             }
         }
         "sprops" => {
             let cc = Cell::new(0u32);
             if let Some(s) = get_span(rc, geti("h")) {
                 let k = own(kvs);
-                s.add_properties(|| {
-                    cc.set(cc.get() + 1);
-                    k
-                });
+                if k.len() == 1 && rc.variant(step["kvs"][0][0].as_i64().unwrap_or(0), 2) == 1 {
+                    let kv = k[0].clone();
+                    s.add_property(|| {
+                        cc.set(cc.get() + 1);
+                        kv
+                    });
+                } else {
+                    s.add_properties(|| {
+                        cc.set(cc.get() + 1);
+                        k
+                    });
+                }
             }
             out.insert("cc".into(), json!(cc.get()));
         }
@@ -518,10 +578,18 @@ fn do_op(
             let h = geti("h");
             if let Some(s) = take_span(rc, h) {
                 let k = own(kvs);
-                let s = s.with_properties(|| {
-                    cc.set(cc.get() + 1);
-                    k
-                });
+                let s = if k.len() == 1 && rc.variant(step["kvs"][0][0].as_i64().unwrap_or(0), 2) == 1 {
+                    let kv = k[0].clone();
+                    s.with_property(|| {
+                        cc.set(cc.get() + 1);
+                        kv
+                    })
+                } else {
+                    s.with_properties(|| {
+                        cc.set(cc.get() + 1);
+                        k
+                    })
+                };
                 rc.spans.lock().unwrap().insert(h, Arc::new(s));
             }
             out.insert("cc".into(), json!(cc.get()));
